@@ -55,7 +55,7 @@ impl DATA {
         let mut entry: Vec<DATAEntry> = Vec::new();
         for _i in 0..16 {
             let entry_count = reader.read_u32::<LittleEndian>()?;
-            let offset = reader.position() as u32 + reader.read_u32::<LittleEndian>()?;
+            let offset = (reader.position() as u32).wrapping_add(reader.read_u32::<LittleEndian>()?);
             entry.push(DATAEntry {
                 entry_count,
                 offset,
@@ -92,8 +92,8 @@ impl DICT {
         let mut entry: Vec<DICTEntry> = Vec::new();
         for _i in 0..entry_count {
             reader.seek(SeekFrom::Current(0x8))?;
-            let filename_offset = reader.position() as u32 + reader.read_u32::<LittleEndian>()?;
-            let object_offset = reader.position() as u32 + reader.read_u32::<LittleEndian>()?;
+            let filename_offset = (reader.position() as u32).wrapping_add(reader.read_u32::<LittleEndian>()?);
+            let object_offset = (reader.position() as u32).wrapping_add(reader.read_u32::<LittleEndian>()?);
             entry.push(DICTEntry {
                 filename_offset,
                 object_offset,
@@ -136,7 +136,7 @@ impl TXOB {
             let flags = reader.read_u32::<LittleEndian>()?;
             let magic_id = reader.read_u32::<LittleEndian>()?;
             reader.seek(SeekFrom::Current(0x4))?;
-            let filename_offset = reader.position() as u32 + reader.read_u32::<LittleEndian>()?;
+            let filename_offset = (reader.position() as u32).wrapping_add(reader.read_u32::<LittleEndian>()?);
             reader.seek(SeekFrom::Current(0x8))?;
             let height = reader.read_u32::<LittleEndian>()? as usize;
             let width = reader.read_u32::<LittleEndian>()? as usize;
@@ -146,7 +146,7 @@ impl TXOB {
             let pixel_format = reader.read_u32::<LittleEndian>()?;
             reader.seek(SeekFrom::Current(0xC))?;
             let size = reader.read_u32::<LittleEndian>()? as usize;
-            let texture_offset = reader.position() as u32 + reader.read_u32::<LittleEndian>()?;
+            let texture_offset = (reader.position() as u32).wrapping_add(reader.read_u32::<LittleEndian>()?);
             txob.push(TXOB {
                 flags,
                 magic_id,
